@@ -1,9 +1,10 @@
+\* generated from checks/C07.py (the check passes the same text as cfg_text); kept for running TLC by hand
 SPECIFICATION MCSpec
 CONSTANTS
   Vars = {"x", "y"}
   Ops = {"append", "touch", "removeif", "ensure", "copy", "moveappend", "ecopy", "emove", "fromraw", "markro"}
-  SMin = 0
-  SMax = 1
+  SMin = 1
+  SMax = 2
   Preds = {"first", "last", "evens", "all"}
   Keys = {}
   Caps = {4}
@@ -11,7 +12,7 @@ CONSTANTS
   RawShape = 1
   MaxLen = 4
   MaxKids = 2
-  ZeroTouch = TRUE
+  ZeroTouch = FALSE
   Ptr = FALSE
   FixedSlots = TRUE
   FixedUnset = TRUE
